@@ -58,6 +58,13 @@ CHECKS = [
   "text": _WORKER + " Safety oracle: bodies in progress <= tasks_limit at every instant. Progress oracle: no free slot + deliverable message "
           "without a start for longer than a per-broker pickup allowance; all jobs start within a stated bound ('eventually' = within the bound).",
   "note": _MODEL + _SRV},
+ {"property_id": "C11", "level": "exploration", "design_ref": "DESIGN.md §4 C11",
+  "technique": "property-based testing over generated router/worker/job configurations against a last-registration-wins routing model, 3 brokers, 1-2 workers",
+  "text": "Routers, overrides, inclusion orders, worker subsets and job (name, queue) pairs are generated (names prefix-related on purpose); the "
+          "model says which registration, if any, must run each job exactly once; every other message must stay waiting, unchanged and "
+          "consumable by a later consumer of its topic; own jobs must finish within a bound; the worker's actor table must equal the "
+          "last-wins union.",
+  "note": _MODEL + _SRV + " Open known finding D20b (RabbitMQ topic filtering by reject+requeue can block/ping-pong) is excluded by signature."},
  {"property_id": "C12", "level": "exploration", "design_ref": "DESIGN.md §4 C12",
   "technique": "property-based testing of time-to-live boundaries on a virtual clock (delivery instant = expiry + generated epsilon, exact 0 included), broker and worker level, 3 brokers",
   "text": "Generated ttl/age/kind (immediate, delayed before/after expiry, retried, rescheduled, no ttl) with the consume (or worker start) "
